@@ -79,9 +79,14 @@ pub enum Topology {
     MockBuiltByDestructor,
     /// as above, and the destructor drops that original while a clone of it is still alive
     MockAndCloneBuiltByDestructor,
+    /// the usual fixture for a `no_verify_in_drop()` mock: a guard object owns the original and calls
+    /// `verify()` on it in its destructor - which here runs during the unwinding
+    ExplicitVerifyByDestructor,
+    /// as above with `Termination::report()`
+    ReportByDestructor,
 }
 
-pub const TOPOLOGIES: [Topology; 13] = [
+pub const TOPOLOGIES: [Topology; 15] = [
     Topology::OriginalOnly,
     Topology::CloneDroppedBeforeOriginal,
     Topology::CloneDroppedAfterOriginal,
@@ -95,6 +100,8 @@ pub const TOPOLOGIES: [Topology; 13] = [
     Topology::CallThroughClone,
     Topology::MockBuiltByDestructor,
     Topology::MockAndCloneBuiltByDestructor,
+    Topology::ExplicitVerifyByDestructor,
+    Topology::ReportByDestructor,
 ];
 
 #[derive(Clone, Copy, Debug, PartialEq, Eq, Hash, Serialize, Deserialize)]
@@ -307,6 +314,20 @@ impl Drop for BuildsMockOnDrop {
     }
 }
 
+/// Owns a `no_verify_in_drop()` original and verifies it explicitly in its destructor.
+struct VerifiesOnDrop(Option<Unimock>, bool);
+impl Drop for VerifiesOnDrop {
+    fn drop(&mut self) {
+        if let Some(u) = self.0.take() {
+            if self.1 {
+                let _code = std::process::Termination::report(u);
+            } else {
+                u.verify();
+            }
+        }
+    }
+}
+
 /// Builds the topology on the current thread and panics at the origin. `parked` receives a
 /// clone that must stay alive elsewhere; `premade` is an original created on another thread.
 fn body(case: &AbortCase, premade: Option<Unimock>, parked: &mut dyn FnMut(Unimock)) {
@@ -378,6 +399,11 @@ fn body(case: &AbortCase, premade: Option<Unimock>, parked: &mut dyn FnMut(Unimo
             let u = premade.unwrap_or_else(new);
             let _lent: &Unimock = u.make_ref(u.clone());
             calls_then_panic(case, &u);
+        }
+        Topology::ExplicitVerifyByDestructor | Topology::ReportByDestructor => {
+            let u = premade.unwrap_or_else(new).no_verify_in_drop();
+            let fixture = VerifiesOnDrop(Some(u), case.topology == Topology::ReportByDestructor);
+            calls_then_panic(case, fixture.0.as_ref().unwrap());
         }
         Topology::MockBuiltByDestructor | Topology::MockAndCloneBuiltByDestructor => {
             // declared first: dropped last, i.e. while the thread is unwinding
@@ -925,7 +951,7 @@ pub fn table() -> Vec<AbortCase> {
     v
 }
 
-pub const RULE: &str = "table = every panic origin {test body before/between/after calls, matcher, answer function, unmock function, default body, by-value default body, argument Debug rendering, return-value Clone, 7 mock-induced error kinds} x every instance topology {original only, clone dropped before / after the original, clone alive on another thread, original behind Rc / Arc / Box, original on a foreign thread, delegation helper alive, value chain holding a clone, call through a clone, a mock (and a mock with a live clone) built and dropped by a destructor during the unwinding} x met/unmet expectations x error recorded earlier or not, enumerated exhaustively; run once on a spawned thread inside a crash-isolated worker and once as the main thread of a fresh child process. Non-trivial = teardown would panic if it ran (topology other than original-only, or unmet expectations, or recorded errors); distinct = distinct table cell";
+pub const RULE: &str = "table = every panic origin {test body before/between/after calls, matcher, answer function, unmock function, default body, by-value default body, argument Debug rendering, return-value Clone, 7 mock-induced error kinds} x every instance topology {original only, clone dropped before / after the original, clone alive on another thread, original behind Rc / Arc / Box, original on a foreign thread, delegation helper alive, value chain holding a clone, call through a clone, a mock (and a mock with a live clone) built and dropped by a destructor during the unwinding, a no_verify_in_drop() original owned by a fixture whose destructor calls verify() / report() on it} x met/unmet expectations x error recorded earlier or not, enumerated exhaustively; run once on a spawned thread inside a crash-isolated worker and once as the main thread of a fresh child process. Non-trivial = teardown would panic if it ran (topology other than original-only, or unmet expectations, or recorded errors); distinct = distinct table cell";
 
 pub fn run(ctx: &Ctx) -> Verdict {
     let mut v = Verdict::new("fault_enumeration", RULE);
